@@ -466,7 +466,11 @@ func (c *Core) inspectStatusReport(bp BundleDescriptor, ar bpv7.AdministrativeRe
 				"status_bundle": bpStore.Id,
 			})
 
-			if err := c.store.Delete(bpStore.BId); err != nil {
+			if status.RefBundle.IsFragment {
+				// The store's record is looked up without the fragment's offset. Only this fragment reached its
+				// destination, not the bundle which is kept here.
+				logger.Info("Status report indicates a delivered fragment, keeping bundle")
+			} else if err := c.store.Delete(bpStore.BId); err != nil {
 				logger.WithError(err).Warn("Failed to delete delivered bundle")
 			} else {
 				logger.Info("Status report indicates delivered bundle, deleting bundle")
